@@ -109,6 +109,7 @@ class IO(object):
         try:
             self.socket = context.wrap_socket(self.socket,
                                               server_hostname=hostname)
+            self.recv_buffer = b''
             return True
         except SSLError as exc:
             log.error(self.socket, exc, self.address)
@@ -118,6 +119,7 @@ class IO(object):
         log.encrypt(self.socket, context)
         try:
             self.socket = context.wrap_socket(self.socket, server_side=True)
+            self.recv_buffer = b''
             return True
         except SSLError as exc:
             log.error(self.socket, exc, self.address)
